@@ -103,6 +103,7 @@ var profC09 = &dbProfile{
 			{ID: 2, Rules: []c07Rule{{Actions: []string{"get"}, Secrets: [][]byte{[]byte("a"), []byte("b")}}}},
 			{ID: 3, Rules: []c07Rule{{Actions: []string{"info", "put"}, Secrets: [][]byte{[]byte("*")}}}}}
 	},
+	SaveFailP: 0.08, // a refused save (of a first put above all) must leave "not found", not a half-made secret
 	Weights: map[string]int{"put": 20, "activate": 16, "delver": 8, "del": 5, "get": 6, "getcond": 45},
 	Nontrivial: func(in DBInput, obs []stepObs) bool {
 		nc, val := 0, 0
